@@ -5,6 +5,7 @@ CONSTANTS
   K = 2
   ATOMIC = FALSE
   FULL = FALSE
+  SPARSE = FALSE
   STORAGE = FALSE
 INVARIANT NoOrphans
 CHECK_DEADLOCK FALSE
